@@ -64,6 +64,10 @@ impl Client {
         if self.done {
             return;
         }
+        if matches!(self.kind, Kind::Stranger { .. }) {
+            // driven by `stranger_turn`; never "stalled"
+            return;
+        }
         let before = (self.got.len(), self.acked, self.peer.is_some(), self.expected);
         self.turn_inner(listener);
         if self.done {
